@@ -867,10 +867,74 @@ def registry(ctx):
     g = P.func('FieldGroup.get_vig_factor')
     res.saw(g)
     s = Code(P, g)
+    # The table is looked up at the normalised field radius h = |H| >= 0, so
+    # the abscissa of field i must be that field's own normalised radius,
+    # |y_i| / max_field on the rotationally symmetric arm (x_i = 0), and the
+    # sort key must be the same magnitude.  Locals are inlined first.
+    import copy
+    arm = None
+    for n in g.node.body:
+        if isinstance(n, ast.If) and 'x_fields' in unparse(n.test):
+            arm = n.body
+    if arm is None:
+        raise AnalysisError('get_vig_factor: symmetric arm not found')
+    defs = {}
+    guard = None
+    for st in arm:
+        if isinstance(st, ast.Assign) and len(st.targets) == 1 and \
+                isinstance(st.targets[0], ast.Name):
+            defs[st.targets[0].id] = st.value
+        if isinstance(st, ast.If):
+            guard = st
+            for arm2 in (st.body, st.orelse):
+                for st2 in arm2:
+                    if isinstance(st2, ast.Assign) and isinstance(
+                            st2.targets[0], ast.Name):
+                        defs.setdefault(st2.targets[0].id + '#arms',
+                                        []).append(st2.value)
+
+    class Inl(ast.NodeTransformer):
+        def visit_Name(self, node):
+            if node.id in defs and isinstance(node.ctx, ast.Load):
+                return self.visit(copy.deepcopy(defs[node.id]))
+            return node
+
+    def inl(e):
+        return unparse(Inl().visit(copy.deepcopy(e)))
+    MAG = {'np.abs(self.y_fields)', 'np.absolute(self.y_fields)',
+           'np.sqrt(self.x_fields ** 2 + self.y_fields ** 2)',
+           'np.hypot(self.x_fields, self.y_fields)'}
+    DEN = {'self.max_field'} | {f'np.max({m})' for m in MAG}
+    ok_sort = ok_abs = ok_guard = False
+    idx = defs.get('idx_sorted')
+    if isinstance(idx, ast.Call) and unparse(idx.func) == 'np.argsort' and \
+            len(idx.args) == 1 and inl(idx.args[0]) in MAG:
+        ok_sort = True
+    hs = [v for v in defs.get('h_sorted#arms', [])
+          if isinstance(v, ast.BinOp)]
+    if 'h_sorted' in defs:
+        hs.append(defs['h_sorted'])
+    for v in hs:
+        if isinstance(v, ast.BinOp) and isinstance(v.op, ast.Div) and \
+                isinstance(v.left, ast.Subscript) and \
+                inl(v.left.value) in MAG and \
+                unparse(v.left.slice) == 'idx_sorted' and \
+                inl(v.right) in DEN:
+            ok_abs = True
+            if guard is None:
+                ok_guard = True
+            elif isinstance(guard.test, ast.Compare) and \
+                    inl(guard.test.left) == inl(v.right) and \
+                    unparse(guard.test.comparators[0]) in ('0', '0.0'):
+                ok_guard = True
     checks = [
-        ('idx_sorted = np.argsort(self.y_fields)' in s, 'fields sorted by y'),
-        ('h_sorted = self.y_fields[idx_sorted] / self.max_y_field' in s,
-         'abscissa = normalised field height'),
+        (ok_sort, 'fields sorted by their magnitude |y| (the table is a '
+                  'function of the field radius; sorting signed values puts '
+                  'negative fields in the wrong order)'),
+        (ok_abs, 'abscissa = |y_i| / max_field, the normalised radius of '
+                 'field i (signed values or the signed maximum lose the '
+                 'factors of fields written with a negative sign)'),
+        (ok_guard, 'zero guard tests the normalising maximum'),
         ('vx_sorted = self.vx[idx_sorted]' in s and
          'vy_sorted = self.vy[idx_sorted]' in s, 'ordinates sorted alike'),
         ('h = np.sqrt(Hx ** 2 + Hy ** 2)' in s, 'lookup at radial field H'),
@@ -989,4 +1053,65 @@ def field_wiring(ctx):
     return res
 
 
-RULES = [no_stale, field_wiring, config_table, aim, trace_entry, in_disk, registry]
+def xy_exchange(ctx):
+    """a rotationally symmetric lens answers the request (Hx, Hy, Px, Py) =
+    (a, b, c, d) with the mirror image (x <-> y) of its answer to
+    (b, a, d, c): the launch law for x must be the law for y with the roles
+    exchanged, sign included (AIM compares the x law up to sign only)."""
+    P = ctx.P
+    res = Result('XY-EXCHANGE', 'ray launch: the x law is the y law with x '
+                 'and y exchanged (same sign convention for Hx and Hy)')
+    c = _rg(P)
+    gen = c.methods['generate_rays']
+    org = c.methods.get('_get_ray_origins')
+    res.saw(gen)
+    fx = A('self.optic.fields.max_field') * A('Hx')
+    fy = A('self.optic.fields.max_field') * A('Hy')
+    for tele, inf, ft, name in (
+            (False, True, 'angle', 'infinite object, angular field'),
+            (False, False, 'angle', 'finite object, angular field'),
+            (False, False, 'object_height', 'finite object, height field')):
+        try:
+            ev, built, sym = _eval_gen(P, tele, inf, ft, False)
+        except Inconclusive as e:
+            raise AnalysisError(f'XY-EXCHANGE {name}: outside fragment: {e}')
+        x0, y0, z0 = built['args'][:3]
+        E = ev.env
+        x1, y1, z1 = E.get('x1'), E.get('y1'), E.get('z1')
+        dx, dy, dz = x1 - x0, y1 - y0, z1 - z0
+        ty = sym.sin(fy * A('pi') / C(180)) / sym.cos(fy * A('pi') / C(180))
+        tx = sym.sin(fx * A('pi') / C(180)) / sym.cos(fx * A('pi') / C(180))
+        if ft == 'object_height':
+            ok = rat_eq(x0, fx) and rat_eq(y0, fy)
+            sy = sx = None
+        elif inf:
+            sub = 'self.optic.surface_group.positions[1]'
+
+            def z0sub(r):
+                return Rat(r.n.subst(sub, Poly()), r.d.subst(sub, Poly()))
+            sy = +1 if sym.eq(z0sub(dy), ty * z0sub(dz)) else (
+                -1 if sym.eq(z0sub(dy), -ty * z0sub(dz)) else None)
+            sx = +1 if sym.eq(z0sub(dx), tx * z0sub(dz)) else (
+                -1 if sym.eq(z0sub(dx), -tx * z0sub(dz)) else None)
+            ok = sy is not None and sy == sx
+        else:
+            sy = +1 if sym.eq(y0, -ty * (A('EPL') - z0)) else (
+                -1 if sym.eq(y0, ty * (A('EPL') - z0)) else None)
+            sx = +1 if sym.eq(x0, -tx * (A('EPL') - z0)) else (
+                -1 if sym.eq(x0, tx * (A('EPL') - z0)) else None)
+            ok = sy is not None and sy == sx
+        if ok:
+            res.ok(f'{name}: x law = y law with x and y exchanged')
+        else:
+            res.fail(ctx.finding(
+                'XY-EXCHANGE', org or gen, None,
+                f'{name}: a positive Hy launches the chief ray towards '
+                f'{"+" if sy == 1 else "-"}y but a positive Hx towards '
+                f'{"+" if sx == 1 else "-"}x: the request (Hx, Hy, Px, Py) = '
+                f'(0.7, 0, -0.6, 0.3) is not the x-y mirror image of '
+                f'(0, 0.7, 0.3, -0.6)',
+                construct=f'{name}: Hx sign'))
+    return res
+
+
+RULES = [xy_exchange, no_stale, field_wiring, config_table, aim, trace_entry, in_disk, registry]
